@@ -24,3 +24,34 @@ fn c18_new_culls_exactly_and_reports_true_size() {
     }
     println!("CASES c18_new {cases}");
 }
+
+/// every value an instruction leaves on the stack / in storage obeys the limit, on real runs
+#[test]
+fn c18_instruction_results_obey_the_limit() {
+    use storage_layout_extractor::{disassembly::InstructionStream, vm::{Config, VM}, watchdog::LazyWatchdog};
+    let programs: Vec<(&str, Vec<u8>)> = vec![
+        ("sload of a computed key", vec![0x60, 0x01, 0x60, 0x02, 0x01, 0x54, 0x00]),
+        ("repeated squaring", vec![0x36, 0x80, 0x02, 0x80, 0x02, 0x80, 0x02, 0x80, 0x02, 0x60, 0x00, 0x55, 0x00]),
+        ("repeated add then mstore/mload", vec![0x36, 0x80, 0x01, 0x80, 0x01, 0x80, 0x01, 0x60, 0x00, 0x52, 0x60, 0x00, 0x51, 0x60, 0x00, 0x55, 0x00]),
+        ("sha3 of memory", vec![0x36, 0x60, 0x00, 0x52, 0x60, 0x20, 0x60, 0x00, 0x20, 0x80, 0x01, 0x60, 0x00, 0x55, 0x00]),
+    ];
+    let mut cases = 0;
+    for (name, code) in programs {
+        for limit in [1usize, 2, 3, 5, 8, 13] {
+            let is = InstructionStream::try_from(code.as_slice()).unwrap();
+            let mut vm = VM::new(is, Config::default().with_value_size_limit(limit).with_permissive_errors(true), LazyWatchdog.in_rc()).unwrap();
+            let _ = vm.execute();
+            let res = vm.consume();
+            for v in res.all_values() {
+                let real = count(&v);
+                if v.size() != real { witness("C18", "vs.size_is_node_count", format!("{name} code={code:02x?} limit={limit}"), format!("size()={} for {v}", v.size()), format!("{real}")); }
+                // known finding: Storage::load / stores_as_values / Memory::load_slice wrap values with RSV::new(.., None)
+                let storage_wrapper = matches!(v.data(), RSVD::SLoad { .. } | RSVD::StorageWrite { .. } | RSVD::UnwrittenStorageValue { .. });
+                let ob = if storage_wrapper { "vs.instruction_result_within_limit.storage_wrapper_unlimited" } else { "vs.instruction_result_within_limit" };
+                if real > limit.max(1) { witness("C18", ob, format!("{name} code={code:02x?} limit={limit}"), format!("{real} nodes: {v}"), format!("<= {limit}")); }
+            }
+            cases += 1;
+        }
+    }
+    println!("CASES c18_runs {cases}");
+}
